@@ -308,6 +308,9 @@ def run_c03(ctx):
     ctx.mc("MvtMC", "MvtMC_rings_%s.cfg" % ctx.tier, note="rings/polygons/multipolygons of triangles: regrouping by winding gives Canon(g)")
     shards = ctx.gen("mvt")
     ctx.validate("Mvt_Trace", shards)
+    # sizes: layers of 100 .. 4000 (65 536) features that compress more than tenfold, plain and gzipped
+    shards = ctx.gen("mvtbig", shards=1)
+    ctx.validate("Mvt_Trace", shards, stage="big-layers")
 
 
 def sig_c03(ev):
@@ -319,7 +322,7 @@ def sig_c03(ev):
 PLANS["C03"] = dict(
     run=run_c03, signature=sig_c03,
     technique="TLA+ state machines for the MVT command-stream encoder/decoder and the key/value tables; TLC model-checks Decode(Encode(g)) = Canon(g) and validates traces of real Marshal/Unmarshal calls byte-structure for byte-structure",
-    level_text="TLC checks on all small geometries (points/lines over {+-(2^28-1), -1, 0, 2}, rings/polygons/multipolygons of triangles) that the decoder state machine applied to the encoder state machine's command words yields Canon(g), that zig-zag is bijective there and that the decoder is total on every sequence of <=4 (5) command words over a 10-word alphabet. For seeded layer lists (all kinds, |v| < 2^28 for points/lines, |v| <= 8192 for polygons, every Go numeric kind, nil, slices, maps, colliding numbers of different types, ids, versions, extents) TLC then requires: the tile message read back through the generated protobuf type equals the specified encoding exactly (keys, values, tags, command words), three repeated marshals are byte-identical, Unmarshal and UnmarshalGzipped return Canon of the input with widened numbers. Feature ids of every numeric Go kind including 0; tiny rings placed up to 2^28 from the origin (winding must not depend on position); the bytes and layers returned for the previous event must be unchanged by later calls (no shared buffers).",
+    level_text="TLC checks on all small geometries (points/lines over {+-(2^28-1), -1, 0, 2}, rings/polygons/multipolygons of triangles) that the decoder state machine applied to the encoder state machine's command words yields Canon(g), that zig-zag is bijective there and that the decoder is total on every sequence of <=4 (5) command words over a 10-word alphabet. For seeded layer lists (all kinds, |v| < 2^28 for points/lines, |v| <= 8192 for polygons, every Go numeric kind, nil, slices, maps, colliding numbers of different types, ids, versions, extents) TLC then requires: the tile message read back through the generated protobuf type equals the specified encoding exactly (keys, values, tags, command words), three repeated marshals are byte-identical, Unmarshal and UnmarshalGzipped return Canon of the input with widened numbers. Feature ids of every numeric Go kind including 0; tiny rings placed up to 2^28 from the origin (winding must not depend on position); the bytes and layers returned for the previous event must be unchanged by later calls (no shared buffers). Sizes: layers of 100, 1000, 4000 (20 000, 65 536 thorough) point or line features repeating the same property values (the tile compresses more than tenfold) must come back whole on the plain and on the gzipped path (compared feature by feature in the harness, counts by TLC).",
     level_note="Polygon kinds are judged by TLC only for |v| <= 8192 (the ring-regrouping shoelace needs 57 bits at 2^28; TLC integers are 32-bit); the cursor/zig-zag path is exercised to 2^28 on point and line kinds. NaN and -0 property values are not generated (Go map keys treat them specially). Nested or empty collections make Marshal return an error and are outside the quantifier. Trusted: TLC, Json module, gogo/protobuf vectortile.Tile.Unmarshal as the lens on the bytes, encoding/json for uncomparable values, bit interning.",
     rule="one event = one layer list with the tile message and both decoded results; non-trivial = at least one feature with a geometry; distinct = distinct event text",
     assumptions=["the generated protobuf type reads the tile bytes faithfully", "outer rings counter-clockwise and holes clockwise with non-zero area (asserted by the spec per event)"],
